@@ -187,7 +187,17 @@ pub fn canonical(g: &RefGraph) -> Canon {
             k = j;
         }
     }
-    assert!(work <= 50_000, "canonical(): {work} permutations needed (too symmetric for brute force)");
+    if work > 50_000 {
+        // too symmetric for brute force: return a form that is still invariant under renaming
+        // only up to colour classes (NOT canonical) tagged so that it can never equal a real one;
+        // callers that need a decision use `isomorphic`, which backtracks instead.
+        let mut nodes: Vec<RNode> = order.iter().map(|i| g.nodes[&ids[*i]].clone()).collect();
+        nodes.push(RNode { labels: [format!("__noncanonical__{:?}", ids)].into_iter().collect(), props: BTreeMap::new() });
+        let pos: BTreeMap<u64, usize> = order.iter().enumerate().map(|(i, p)| (ids[*p], i)).collect();
+        let mut rels: Vec<(usize, usize, String, BTreeMap<String, LV>)> = g.rels.values().map(|r| (*pos.get(&r.src).unwrap_or(&usize::MAX), *pos.get(&r.dst).unwrap_or(&usize::MAX), r.ty.clone(), r.props.clone())).collect();
+        rels.sort();
+        return (nodes, rels);
+    }
     let mut best: Option<Canon> = None;
     let mut perm = order.clone();
     permute_classes(g, &ids, &colour, &connected, &mut perm, 0, &mut best);
@@ -223,6 +233,66 @@ fn permute_classes(g: &RefGraph, ids: &[u64], colour: &[usize], connected: &[boo
     }
 }
 
+/// Isomorphism by backtracking (node content must match; relationship multisets must match
+/// under the node mapping). Exact for any size; fast on the small graphs used here.
 pub fn isomorphic(a: &RefGraph, b: &RefGraph) -> bool {
-    a.nodes.len() == b.nodes.len() && a.rels.len() == b.rels.len() && canonical(a) == canonical(b)
+    if a.nodes.len() != b.nodes.len() || a.rels.len() != b.rels.len() {
+        return false;
+    }
+    let mut ca: Vec<&RNode> = a.nodes.values().collect();
+    let mut cb: Vec<&RNode> = b.nodes.values().collect();
+    ca.sort();
+    cb.sort();
+    if ca != cb {
+        return false;
+    }
+    let aid: Vec<u64> = a.nodes.keys().copied().collect();
+    let bid: Vec<u64> = b.nodes.keys().copied().collect();
+    // per-node signature: multiset of incident (direction, type, props, is_self_loop)
+    let sig = |g: &RefGraph, id: u64| {
+        let mut v: Vec<(u8, String, BTreeMap<String, LV>, bool)> = vec![];
+        for r in g.rels.values() {
+            if r.src == id {
+                v.push((0, r.ty.clone(), r.props.clone(), r.dst == id));
+            }
+            if r.dst == id {
+                v.push((1, r.ty.clone(), r.props.clone(), r.src == id));
+            }
+        }
+        v.sort();
+        v
+    };
+    let sa: Vec<_> = aid.iter().map(|i| sig(a, *i)).collect();
+    let sb: Vec<_> = bid.iter().map(|i| sig(b, *i)).collect();
+    fn rels_of(g: &RefGraph, map: &BTreeMap<u64, usize>) -> Vec<(usize, usize, String, BTreeMap<String, LV>)> {
+        let mut v: Vec<_> = g.rels.values().map(|r| (map[&r.src], map[&r.dst], r.ty.clone(), r.props.clone())).collect();
+        v.sort();
+        v
+    }
+    let amap: BTreeMap<u64, usize> = aid.iter().enumerate().map(|(i, id)| (*id, i)).collect();
+    let target = rels_of(a, &amap);
+    // assign to each a-index i a b-node; partial check on relationships among assigned nodes
+    fn rec(i: usize, n: usize, a: &RefGraph, b: &RefGraph, aid: &[u64], bid: &[u64], sa: &[Vec<(u8, String, BTreeMap<String, LV>, bool)>], sb: &[Vec<(u8, String, BTreeMap<String, LV>, bool)>], used: &mut Vec<bool>, assign: &mut Vec<usize>, target: &[(usize, usize, String, BTreeMap<String, LV>)]) -> bool {
+        if i == n {
+            let bmap: BTreeMap<u64, usize> = assign.iter().enumerate().map(|(ai, bj)| (bid[*bj], ai)).collect();
+            let mut v: Vec<_> = b.rels.values().map(|r| (bmap[&r.src], bmap[&r.dst], r.ty.clone(), r.props.clone())).collect();
+            v.sort();
+            return v == target;
+        }
+        for j in 0..n {
+            if used[j] || a.nodes[&aid[i]] != b.nodes[&bid[j]] || sa[i] != sb[j] {
+                continue;
+            }
+            used[j] = true;
+            assign.push(j);
+            if rec(i + 1, n, a, b, aid, bid, sa, sb, used, assign, target) {
+                return true;
+            }
+            assign.pop();
+            used[j] = false;
+        }
+        false
+    }
+    let n = aid.len();
+    rec(0, n, a, b, &aid, &bid, &sa, &sb, &mut vec![false; n], &mut vec![], &target)
 }
